@@ -24,6 +24,7 @@ list (as found: not on digit-less strings such as "-", `ingest_stats_old_counter
 import SigModel.Gen.TimeBucket
 import SigModel.Spec.Logs
 import SigModel.Lemmas.C04Se
+import SigModel.Lemmas.C04Tc
 
 namespace SigModel.Props.C04
 open SigModel.Gen SigModel.MachInt
@@ -68,7 +69,9 @@ theorem bucket_before_start (start end_ step ts : Int) (h : ts < start) :
   simp [FindTimeRangeBucket, h]
 
 theorem bucket_at_or_after_end (start end_ step ts : Int) (h1 : start ≤ ts) (h : end_ ≤ ts) :
-    FindTimeRangeBucket end_ start step ts = wrapU64 (end_ - step) := by
+    FindTimeRangeBucket end_ start step ts =
+      if end_ ≤ start then start
+      else wrapU64 (start + wrapU64 (wrapU64 (Int.tdiv (wrapU64 (wrapU64 (end_ - 1) - start)) step) * step)) := by
   have : ¬ ts < start := by omega
   simp [FindTimeRangeBucket, this, h]
 
@@ -98,8 +101,8 @@ theorem spec_bucket_unique (start span ts k : Nat) (h1 : start + k * span ≤ ts
     · rw [Nat.add_mul]; omega
   rw [this]
 
-/-- tie: strictly inside the range the regenerated kernel FindTimeRangeBucket computes exactly the specification's cell -/
-theorem kernel_bucket_eq_spec (start end_ step ts : Nat) (_hs : 0 < step) (h1 : start ≤ ts) (h2 : ts < end_)
+/-- tie, inside the range: the regenerated kernel FindTimeRangeBucket computes exactly the specification's grid cell -/
+theorem kernel_bucket_eq_spec_inside (start end_ step ts : Nat) (_hs : 0 < step) (h1 : start ≤ ts) (h2 : ts < end_)
     (hmax : end_ < 18446744073709551616) :
     FindTimeRangeBucket end_ start step ts = ((bucketOf start step ts : Nat) : Int) := by
   have hq : (ts - start) / step * step ≤ ts - start := Nat.div_mul_le_self _ _
@@ -127,31 +130,95 @@ theorem kernel_bucket_eq_spec (start end_ step ts : Nat) (_hs : 0 < step) (h1 : 
   rw [c3]
   exact Int.emod_eq_of_lt (by omega) (by omega)
 
-/-- an event exactly ON the end bound (the search stage matches `ts ≤ end`): when the bound lies on the grid the kernel's
-clamped branch folds it into the last cell `[end − step, end]`, which is the specification's closed-range reading `tcBucket` -/
+/-- a timestamp exactly ON the end bound (the search stage matches `ts ≤ end`) is answered like `end − 1`: it lands in the
+last cell of the grid (repair c04-8) -/
+theorem kernel_end_eq_last (start end_ step : Nat) (h1 : start < end_) (hmax : end_ < 18446744073709551616) :
+    FindTimeRangeBucket end_ start step end_ = FindTimeRangeBucket end_ start step ((end_ - 1 : Nat) : Int) := by
+  have c : ((end_ - 1 : Nat) : Int) = (end_ : Int) - 1 := by omega
+  have w : ((end_ : Int) - 1) % 18446744073709551616 = (end_ : Int) - 1 := Int.emod_eq_of_lt (by omega) (by omega)
+  have a1 : ¬ ((end_ : Int) < start) := by omega
+  have a3 : ¬ ((end_ : Int) ≤ start) := by omega
+  have b1 : ¬ ((end_ : Int) - 1 < start) := by omega
+  have b2 : ¬ ((end_ : Int) - 1 ≥ end_) := by omega
+  rw [c]
+  simp only [FindTimeRangeBucket, wrapU64, a1, a3, b1, b2, ge_iff_le, Int.le_refl, decide_true, decide_false,
+    Bool.false_eq_true, ↓reduceIte, w]
+
+/-- C04.5 tie on the CLOSED range (full statement, holds since the repair c04-8): for every timestamp the search stage can
+hand over, `start ≤ ts ≤ end`, the regenerated kernel computes exactly the specification's cell `tcBucket` — the grid cell
+of `ts`, and for `ts = end` the last cell of the grid -/
+theorem kernel_bucket_eq_spec (start end_ step ts : Nat) (hs : 0 < step) (h1 : start ≤ ts) (h2 : ts ≤ end_)
+    (hmax : end_ < 18446744073709551616) :
+    FindTimeRangeBucket end_ start step ts = ((tcBucket start end_ step ts : Nat) : Int) := by
+  by_cases hlt : ts < end_
+  · have hne : (ts == end_) = false := by simp; omega
+    simp only [tcBucket, hne, Bool.false_and, Bool.false_eq_true, ↓reduceIte]
+    exact kernel_bucket_eq_spec_inside start end_ step ts hs h1 hlt hmax
+  · have he : ts = end_ := by omega
+    subst he
+    by_cases hse : start < ts
+    · simp only [tcBucket, beq_self_eq_true, hse, decide_true, Bool.and_self, ↓reduceIte]
+      rw [kernel_end_eq_last start ts step hse hmax]
+      exact kernel_bucket_eq_spec_inside start ts step (ts - 1) hs (by omega) (by omega) hmax
+    · have hst : start = ts := by omega
+      subst hst
+      have hnl : ¬ ((start : Int) < start) := by omega
+      simp [tcBucket, bucketOf, FindTimeRangeBucket]
+
+/-- every matched event is therefore counted by the kernel in a cell of the grid that contains it or, for the end bound,
+in the last cell of the grid: the kernel's answer is on the grid for the whole closed range -/
+theorem kernel_bucket_on_grid (start end_ step ts : Nat) (hs : 0 < step) (h1 : start ≤ ts) (h2 : ts ≤ end_)
+    (hmax : end_ < 18446744073709551616) :
+    ∃ k : Nat, FindTimeRangeBucket end_ start step ts = ((start + k * step : Nat) : Int) := by
+  rw [kernel_bucket_eq_spec start end_ step ts hs h1 h2 hmax]
+  unfold tcBucket bucketOf
+  split
+  · exact ⟨_, rfl⟩
+  · exact ⟨_, rfl⟩
+
+/-- an end bound ON the grid: the last cell is `[end − step, end]` (the end point does not open a cell of its own) -/
 theorem kernel_end_on_grid (start end_ step : Nat) (hs : 0 < step) (h1 : start < end_) (hg : (end_ - start) % step = 0)
     (hmax : end_ < 18446744073709551616) :
-    FindTimeRangeBucket end_ start step end_ = ((tcBucket start end_ step end_ : Nat) : Int) := by
+    FindTimeRangeBucket end_ start step end_ = ((end_ - step : Nat) : Int) := by
+  rw [kernel_bucket_eq_spec start end_ step end_ hs (by omega) (by omega) hmax]
   have hle : step ≤ end_ - start := Nat.le_of_dvd (by omega) (Nat.dvd_of_mod_eq_zero hg)
-  have hnl : ¬ ((end_ : Int) < start) := by omega
-  simp only [FindTimeRangeBucket, wrapU64, tcBucket, hnl, decide_false, Bool.false_eq_true, ↓reduceIte, ge_iff_le, Int.le_refl, decide_true, beq_self_eq_true, h1, hg, Bool.and_self]
-  have : ((end_ : Int) - step) = ((end_ - step : Nat) : Int) := by omega
-  rw [this]
-  exact Int.emod_eq_of_lt (by omega) (by omega)
+  obtain ⟨k, hk⟩ := Nat.dvd_of_mod_eq_zero hg
+  have hk1 : 1 ≤ k := by
+    rcases k with _ | k
+    · simp at hk; omega
+    · omega
+  simp only [tcBucket, beq_self_eq_true, h1, decide_true, Bool.and_self, ↓reduceIte, bucketOf]
+  have e : end_ - 1 - start = step * (k - 1) + (step - 1) := by
+    have : step * k = step * (k - 1) + step := by
+      have : k = (k - 1) + 1 := by omega
+      conv => lhs; rw [this, Nat.mul_add, Nat.mul_one]
+    omega
+  have d : (end_ - 1 - start) / step = k - 1 := by
+    rw [e, Nat.mul_add_div hs]
+    have : (step - 1) / step = 0 := Nat.div_eq_of_lt (by omega)
+    omega
+  rw [d]
+  have : (k - 1) * step = step * k - step := by
+    rw [Nat.mul_comm, Nat.mul_sub, Nat.mul_one]
+  congr 1
+  omega
 
-/-- … but when the end bound does NOT lie on the grid the clamped branch answers `end − step`, which is no cell of the grid
-and whose span `[end − step, end)` does not contain the timestamp: witness range [1, 11], step 3 → 8 (cells 1, 4, 7, 10).
-Replayed end to end: known finding e2e/timechart/event-at-end-bound-off-grid. -/
-theorem kernel_end_off_grid_counterexample :
+/-- AS FOUND (before the repair c04-8) the clamped branch answered `end − step` whatever the grid: when the end bound does
+not lie on the grid that is no cell of the grid, and its span `[end − step, end)` does not contain the timestamp: witness
+range [1, 11], step 3 → 8 (cells 1, 4, 7, 10).  Was replayed end to end as e2e/timechart/event-at-end-bound-off-grid. -/
+theorem kernel_end_off_grid_old_counterexample :
     ¬ (∀ start end_ step : Nat, 0 < step → start < end_ → end_ < 18446744073709551616 →
-        (FindTimeRangeBucket end_ start step end_ - start) % step = 0 ∧
-        FindTimeRangeBucket end_ start step end_ ≤ end_ ∧ (end_ : Int) < FindTimeRangeBucket end_ start step end_ + step) := by
+        (FindTimeRangeBucketOld end_ start step end_ - start) % step = 0 ∧
+        FindTimeRangeBucketOld end_ start step end_ ≤ end_ ∧ (end_ : Int) < FindTimeRangeBucketOld end_ start step end_ + step) := by
   intro h
   have := (h 1 11 3 (by decide) (by decide) (by decide)).1
   revert this
   decide
 
-example : tcBucket 1 10 3 10 = 7 ∧ bucketOf 1 3 10 = 10 ∧ tcBucket 1 11 3 11 = 10 := by decide
+/-- the same witness on the repaired kernel -/
+example : FindTimeRangeBucket 11 1 3 11 = 10 ∧ FindTimeRangeBucket 10 1 3 10 = 7 ∧ FindTimeRangeBucket 5 5 3 5 = 5 := by decide
+
+example : tcBucket 1 10 3 10 = 7 ∧ bucketOf 1 3 10 = 10 ∧ tcBucket 1 11 3 11 = 10 ∧ tcBucket 5 5 3 5 = 5 := by decide
 
 end SpecCells
 
